@@ -314,6 +314,85 @@ class Plain(object):
     def get_b(self): return self.b
 
 
+SHAPE_VARIANTS = ("bag", "row", "gate", "tally", "bare")
+
+
+def make_shape(variant):
+    """a new class on every call, always named harness.C02.Shape, whose set of special methods depends on the variant:
+       bag: __len__ __iter__ __contains__      row: __getitem__ __len__      gate: __enter__ __exit__
+       tally: __bool__ __call__ __iter__ (as a generator)     bare: none
+    Distinct classes with one module-qualified name: what a class factory, type(name, ...) or a re-definition produces."""
+    def __init__(self, items):
+        self.items = list(items)
+        self.log = []
+
+    def describe(self, prefix="", suffix=""):
+        self.log.append("describe")
+        return "%s%s:%d%s" % (prefix, self.kind, len(self.items), suffix)
+
+    def make(cls, *items):
+        cls.made += 1
+        return cls(items)
+    ns = {"__init__": __init__, "describe": describe, "make": classmethod(make), "kind": variant, "made": 0, "_c02_shape": True,
+          "__module__": __name__, "__qualname__": "Shape"}
+    if variant == "bag":
+        ns["__len__"] = lambda self: len(self.items)
+        ns["__iter__"] = lambda self: iter(self.items)
+        ns["__contains__"] = lambda self, x: x in self.items
+    elif variant == "row":
+        def __getitem__(self, i):
+            self.log.append("getitem")
+            return self.items[i]
+        ns["__getitem__"] = __getitem__
+        ns["__len__"] = lambda self: len(self.items) + 100
+    elif variant == "gate":
+        def __enter__(self):
+            self.log.append("entered")
+            return self
+
+        def __exit__(self, typ, val, tb):
+            self.log.append(("exited", class_id(typ)))
+            return False
+        ns["__enter__"], ns["__exit__"] = __enter__, __exit__
+    elif variant == "tally":
+        def __bool__(self):
+            self.log.append("bool")
+            return len(self.items) % 2 == 1
+
+        def __call__(self, *a, **k):
+            self.items.append(len(a) + len(k))
+            return len(self.items)
+
+        def __iter__(self):
+            for x in self.items:
+                yield x * 2
+        ns["__bool__"], ns["__call__"], ns["__iter__"] = __bool__, __call__, __iter__
+    elif variant != "bare":
+        raise ValueError(variant)
+    for f in ns.values():
+        if callable(f) and hasattr(f, "__qualname__"):
+            f.__qualname__ = "Shape." + f.__name__
+    return type("Shape", (object,), ns)
+
+
+def shape_class(env, variant, fresh=False):
+    cache = env.setdefault("shape_classes", {})
+    if fresh or variant not in cache:
+        cls = make_shape(variant)
+        if fresh:
+            return cls
+        cache[variant] = cls
+    return cache[variant]
+
+
+def is_shape(o):
+    return getattr(type(o), "_c02_shape", False) is True
+
+
+def is_shape_class(o):
+    return isinstance(o, type) and o.__dict__.get("_c02_shape", False) is True
+
+
 def gen_fn(items, raise_at, exc):
     i = -1
     for i, x in enumerate(items):
@@ -381,7 +460,18 @@ def build(spec, env):
         return Seq(spec[1])
     if k == "plain":
         return Plain(mk_value(spec[1], env), mk_value(spec[2], env))
+    if k == "shape":          # ["shape", variant, items, fresh-class?]
+        return shape_class(env, spec[1], spec[3])([mk_value(x, env) for x in spec[2]])
+    if k == "shapeclass":     # the class object itself
+        return shape_class(env, spec[1], spec[2])
     raise ValueError("target spec %r" % (spec,))
+
+
+def build_roots(spec, env):
+    """the objects a world starts with: one, or (["multi", [spec, ...]]) several lent one after the other over the same connection"""
+    if spec[0] == "multi":
+        return [build(x, env) for x in spec[1]]
+    return [build(spec, env)]
 
 
 # ------------------------------------------------------------------------------------------------ canonical forms
@@ -445,6 +535,10 @@ def snap(o, env, memo=None, depth=0):
             return ("file", type(o).__name__, st, disk)
         if isinstance(o, (Vec, CM, Seq, Plain)):
             return (t.__name__,) + tuple(sorted(((rec(k), rec(v)) for k, v in vars(o).items()), key=repr))
+        if is_shape(o):
+            return ("Shape", t.kind, ("made", t.made)) + tuple(sorted(((rec(k), rec(v)) for k, v in vars(o).items()), key=repr))
+        if is_shape_class(o):
+            return ("class", o.__module__, o.__qualname__, o.kind, ("made", o.made))
         if isinstance(o, BaseException):
             return ("exception", t.__name__, rec(o.args))
         if isinstance(o, type):
@@ -788,11 +882,11 @@ class World(object):
         self.sb.tap = self.tap
         self.P = ProxySide("proxy", self.env_t, self.cb)
         self.T = Side("twin", self.env_w)
-        target = build(spec, self.env_t)
-        twin = build(spec, self.env_w)
-        # the reference crosses exactly as any result does: boxed by the owner, unboxed by the peer
-        self.P.slots.append(self.ca._unbox(self.cb._box(target)))
-        self.T.slots.append(twin)
+        # every reference crosses exactly as any result does: boxed by the owner, unboxed by the peer -- in the order given,
+        # over the one connection (what the peer learns about the first object's class must not leak into the next one's)
+        for target in build_roots(spec, self.env_t):
+            self.P.slots.append(self.ca._unbox(self.cb._box(target)))
+        self.T.slots.extend(build_roots(spec, self.env_w))
 
     def idmap(self):
         return {tuple(object.__getattribute__(p, "____id_pack__")): i for i, p in enumerate(self.P.slots) if is_netref(p)}
@@ -899,6 +993,15 @@ def run_case(ctx, case, collect=None):
             w.tap.refusals = 0
             idmap = w.idmap()
             methods = proxy_methods(w.P.slots[op[1]])
+            own = None if methods is None else type_methods(twin_obj)
+            borrowed = False
+            if own is not None and sorted(m for m in methods if m not in netref.LOCAL_ATTRS) != own:
+                # the proxy's class must offer exactly the callables of the target's type (outside LOCAL_ATTRS); the model is given
+                # the table of the object itself, so a table borrowed from another class shows up in the requests as well
+                ctx.tie_broken("correspondence:class-methods", "%s under %s: proxy class offers %s, the target's type %s"
+                               % (type(twin_obj).__name__, cfg, short(sorted(set(methods) ^ set(own)), 200), "differs by these"))
+                borrowed = sorted(set(m for m in methods if m not in netref.LOCAL_ATTRS) ^ set(own))
+                methods = own
             rp, vp, how, ep = outcome(w.P, op, True)
             reqs = [(h, a) for h, a in w.tap.reqs if h not in ("HANDLE_DEL", "HANDLE_INSPECT")]
             if collect is not None:
@@ -927,7 +1030,10 @@ def run_case(ctx, case, collect=None):
                 if not same and op[0] == "hash" and rp[0] == rt[0] == "ok" and hash_is_address_based(twin_obj) \
                         and rp[1][0] == rt[1][0] == "val" and rp[1][1][0] == rt[1][1][0] == "int":
                     same = True
-                if not same:
+                if not same and borrowed and set(borrowed) & set(specials_of(op) + ["__call__"]):
+                    report("netref-class:method-table-of-another-class", step, short(rp), short(rt),
+                           where + ": proxy gives %s, target gives %s; the proxy's class and the target's type differ in %s" % (short(rp, 100), short(rt, 100), borrowed))
+                elif not same:
                     report(classify(op, rp, rt, twin_obj, methods), step, short(rp), short(rt), where + ": proxy gives %s, target gives %s" % (short(rp, 120), short(rt, 120)))
                 elif rt[0] == "ok" and how in ("remote", "rebind"):
                     if how == "rebind" and rt[1][0] == "ref":
@@ -939,7 +1045,9 @@ def run_case(ctx, case, collect=None):
             if st_p != st_t:
                 bad = [i for i, (a, b) in enumerate(zip(st_p, st_t)) if a != b]
                 sg = classify(op, ("state",), ("state",), twin_obj, methods)
-                report(sg if sg in FAMILIES else "state:" + sg, step, short([st_p[i] for i in bad]), short([st_t[i] for i in bad]),
+                if borrowed and set(borrowed) & set(specials_of(op) + ["__call__"]):
+                    sg = "netref-class:method-table-of-another-class"
+                report(sg if sg in FAMILIES or sg == "netref-class:method-table-of-another-class" else "state:" + sg, step, short([st_p[i] for i in bad]), short([st_t[i] for i in bad]),
                        "after " + where + " the target's state differs from the twin's (result was %s)" % short(rp, 80))
                 return sigs
         return sigs
@@ -950,13 +1058,35 @@ def run_case(ctx, case, collect=None):
 def proxy_methods(p):
     if not is_netref(p):
         return None
-    return sorted(k for k, v in type(p).__dict__.items() if callable(v))
+    # class_factory's namespace: __slots__, __class__ and one synthesized method per name (type() wraps __init_subclass__ and
+    # __class_getitem__ into classmethods, so "callable" is not the test)
+    return sorted(k for k, v in type(p).__dict__.items() if k not in ("__slots__", "__class__", "__module__", "__doc__", "__dict__", "__weakref__"))
+
+
+def builtin_cached(T):
+    return "%s.%s" % (T.__module__, T.__name__) in netref.builtin_classes_cache
+
+
+def type_methods(obj):
+    """the callables found on the MRO of the object's type (for a class object: of its metaclass, then its own), outside LOCAL_ATTRS
+    -- what the proxy's class has to offer; None for the types whose netref class is the shared pre-generated one"""
+    if builtin_cached(type(obj)) or (isinstance(obj, type) and builtin_cached(obj)):
+        return None
+    attrs = {}
+    mros = list(reversed(type(obj).__mro__)) + (list(reversed(obj.__mro__)) if isinstance(obj, type) else [])
+    for k in mros:
+        attrs.update(k.__dict__)
+    return sorted(n for n, a in attrs.items() if n not in netref.LOCAL_ATTRS and hasattr(a, "__call__"))
 
 
 def type_tag(twin_obj):
     tn = type(twin_obj).__name__
     if tn in ("list", "dict", "set", "bytearray", "deque", "Vec", "CM", "Seq", "Plain", "generator"):
         return tn
+    if is_shape(twin_obj):
+        return "Shape-" + type(twin_obj).kind
+    if is_shape_class(twin_obj):
+        return "class-Shape-" + twin_obj.kind
     if isinstance(twin_obj, io.IOBase):
         return "file"
     if hasattr(twin_obj, "__next__"):
@@ -998,6 +1128,19 @@ FAMILIES = {
 }
 
 
+def specials_of(op):
+    """special methods the interpreter may look for on the operand's type for this operation (including its fallback protocols)"""
+    k = op[0]
+    if k == "iter": return ["__iter__", "__getitem__"]
+    if k in UNARY_SPECIAL: return UNARY_SPECIAL[k]
+    if k == "unop": return ["__%s__" % op[2]]
+    if k in ("getitem", "setitem", "delitem"): return [ITEM_SPECIAL[k]]
+    if k == "contains": return ["__contains__", "__iter__", "__getitem__"]
+    if k == "with": return ["__enter__", "__exit__"]
+    if k in ("func", "buffiter"): return ["__iter__", "__getitem__", "__len__", "__bool__", "__contains__", "__next__", "__reversed__", "__int__", "__float__", "__index__"]
+    return []
+
+
 def classify(op, rp, rt, twin_obj, methods=()):
     """stable name of the shape of a difference"""
     k = op[0]
@@ -1005,7 +1148,8 @@ def classify(op, rp, rt, twin_obj, methods=()):
     methods = methods or ()
     extra_methods = lambda names: any(d in methods and not has_special(T, d) for d in names)
     # shapes that have been triaged (FAMILIES); one signature each
-    if k == "with" and op[2] and has_special(T, "__exit__") and not isinstance(twin_obj, io.IOBase):
+    if k == "with" and op[2] and has_special(T, "__exit__") and not isinstance(twin_obj, io.IOBase) and "__enter__" in methods \
+            and rp != ("exc", "builtins.TypeError"):
         return "ctxexit:exception-class-not-delivered"
     if k in ("getattr", "callm", "tcallm", "setattr", "delattr") and op[2] in netref.LOCAL_ATTRS:
         return "getattr:proxy-local-name"
@@ -1017,6 +1161,8 @@ def classify(op, rp, rt, twin_obj, methods=()):
         return "item-index-beyond-ssize_t:slot-wrapper-raises-OverflowError"
     if k in ("binop", "rbinop", "ibinop") and extra_methods(["__%s__" % op[2], "__r%s__" % op[2], "__%s__" % op[2][1:], "__i%s__" % op[2]]):
         return "netref-class:methods-the-target-type-lacks"
+    if isinstance(twin_obj, type) and extra_methods(specials_of(op)):
+        return "netref-class:methods-the-target-type-lacks"      # a class lent as a class: its proxy offers the class's instance-level special methods
     if k == "rbinop" and op[2] == "mod" and "imm" in op[3] and type(mk_value(op[3], {})) in (bytes, str) and has_special(T, "__getitem__"):
         return "netref-class:methods-the-target-type-lacks"      # C code takes the proxy for a mapping: its class defines __getitem__ in Python
     if T is bytearray and ((k == "rbinop" and "imm" in op[3]) or (k == "func" and op[2] in ("bytes", "bjoin", "int", "float"))):
@@ -1094,7 +1240,7 @@ def gen_elem(r, depth):
 
 
 KINDS = ["list", "list", "dict", "dict", "set", "bytearray", "deque", "listiter", "dictiter", "gen", "file", "file", "vec", "vec", "vec",
-         "cm", "cm", "seq", "plain"]
+         "cm", "cm", "seq", "plain", "family", "family", "family"]
 
 
 def gen_target(r, kind, depth=1):
@@ -1129,7 +1275,34 @@ def gen_target(r, kind, depth=1):
         return ["seq", r.choice([0, 1, 3, 6])]
     if kind == "plain":
         return ["plain", gen_elem(r, depth), imm(gen_imm(r))]
+    if kind == "family":
+        return gen_family(r)
     raise ValueError(kind)
+
+
+def gen_shape(r, variant=None, fresh=None):
+    items = [imm(r.choice([0, 1, 2, 3, 5, "a", "b", (1, 2), None, 2.5])) for _ in range(r.choice([0, 1, 2, 3, 4]))]
+    return ["shape", variant or r.choice(SHAPE_VARIANTS), items, (r.random() < 0.25) if fresh is None else fresh]
+
+
+def gen_family(r):
+    """two to four objects lent one after the other over one connection: instances of different classes that all call themselves
+    harness.C02.Shape (in a random order, sometimes two of one class, sometimes of a second class of the same variant), the classes
+    themselves, now and then an ordinary object in between"""
+    variants = list(SHAPE_VARIANTS)
+    r.shuffle(variants)
+    roots = []
+    for v in variants[:r.choice([2, 2, 3, 3, 4])]:
+        c = r.random()
+        if c < 0.70:
+            roots.append(gen_shape(r, v))
+        elif c < 0.88:
+            roots.append(["shapeclass", v, r.random() < 0.25])
+        else:
+            roots.append(gen_target(r, r.choice(["list", "vec", "cm", "seq"]), 0))
+    if r.random() < 0.3:
+        roots.insert(r.randrange(len(roots) + 1), gen_shape(r, r.choice(variants)))
+    return ["multi", roots]
 
 
 MISSING = ["nope", "_nope", "__nope__", "exposed_nope"]
@@ -1317,6 +1490,25 @@ def gen_op(r, side, i):
             lambda: ["next", i], lambda: ["next", i], lambda: ["next", i], lambda: ["iter", i], lambda: ["func", i, r.choice(["list", "tuple", "sum", "sorted", "next_default", "set", "max"])],
             lambda: ["buffiter", i, r.choice([1, 2, 3, 4, 10, 50]), r.choice([1, 2, 3, 10]), r.choice([1, 2, 7, 1000])], lambda: ["contains", i, I(v())],
         ])()
+    if is_shape(o) or is_shape_class(o):
+        n = 3 if is_shape_class(o) else len(o.items)
+        few = lambda: [I(v()) for _ in range(r.choice([0, 1, 2]))]
+        common = [
+            lambda: ["len", i], lambda: ["len", i], lambda: ["iter", i], lambda: ["bool", i], lambda: ["bool", i], lambda: ["getitem", i, I(idx_for(r, n))],
+            lambda: ["getitem", i, I(r.randrange(n + 1))], lambda: ["contains", i, I(r.choice([0, 1, 2, "a", 9]))], lambda: ["with", i, r.choice([None, None, "ValueError", "KeyError"])],
+            lambda: ["call", i, few(), [[kw, I(v())] for kw in r.sample(["a", "b"], r.choice([0, 0, 1]))]],
+            lambda: ["func", i, r.choice(["list", "sorted", "tuple", "sum", "max", "set", "enumerate"])], lambda: ["buffiter", i, r.choice([1, 2, 10]), r.choice([1, 2]), r.choice([1, 3, 1000])],
+            lambda: ["getattr", i, r.choice(["kind", "made", "items", "log", "describe", "nope"])], lambda: ["repr", i], lambda: ["str", i], lambda: ["hash", i], lambda: ["dir", i],
+            lambda: ["classof", i], lambda: ["cmp", i, r.choice(["eq", "ne"]), {"slot": r.randrange(len(side.slots))}], lambda: ["next", i],
+            lambda: M("make", *[v() for _ in range(r.choice([0, 1, 3]))]),
+        ]
+        if is_shape(o):
+            common += [lambda: M("describe"), lambda: M("describe", "<", suffix=">"), lambda: M("describe", 1, 2, 3), lambda: ["setattr", i, r.choice(["items", "extra"]), I((1, 2))],
+                       lambda: ["delattr", i, r.choice(["extra", "log"])], lambda: ["getattr", i, "__class__"]]
+        else:
+            common += [lambda: ["call", i, [I(tuple(v() for _ in range(r.choice([0, 1, 3]))))], []], lambda: ["call", i, [I(tuple(v() for _ in range(2)))], []],
+                       lambda: ["getattr", i, r.choice(["__name__", "__qualname__", "__module__", "__mro__"])], lambda: ["setattr", i, "made", I(7)]]
+        return r.choice(common)()
     if callable(o):                  # bound methods, functions, classes fetched with getattr
         return r.choice([
             lambda: ["call", i, [I(v()) for _ in range(r.choice([0, 1, 1, 2]))], []], lambda: ["call", i, [I(v())], [["bogus", I(1)]]], lambda: ["repr", i],
@@ -1327,6 +1519,15 @@ def gen_op(r, side, i):
         lambda: ["iter", i], lambda: ["len", i], lambda: ["contains", i, I(v())], lambda: ["func", i, r.choice(["list", "sorted", "tuple", "set"])], lambda: ["repr", i],
         lambda: ["binop", i, "or", I(frozenset([1]))], lambda: ["cmp", i, "eq", I(v())], lambda: ["buffiter", i, 2, 2, 4],
     ])()
+
+
+def plain_method(T, name):
+    """is T.name an ordinary method (a function or a C method descriptor found on the type), so that T.name(x, ...) is x.name(...)?"""
+    import types
+    for k in T.__mro__:
+        if name in k.__dict__:
+            return isinstance(k.__dict__[name], (types.FunctionType, types.MethodDescriptorType, types.WrapperDescriptorType))
+    return False
 
 
 def tame(r, op):
@@ -1356,9 +1557,11 @@ def gen_case(r, cfg, nops=25, kind=None):
     side = Side("scratch", env)
     ops = []
     try:
-        side.slots.append(build(spec, env))
+        side.slots.extend(build_roots(spec, env))
         for _ in range(r.randint(3, nops)):
             i = 0 if r.random() < 0.55 or len(side.slots) == 1 else r.randrange(len(side.slots))
+            if spec[0] == "multi" and r.random() < 0.8:
+                i = r.randrange(len(spec[1]))       # the objects that were lent, in any order
             if len(side.slots) > 1 and r.random() < 0.25:
                 i = len(side.slots) - 1
             for _try in range(4):
@@ -1370,7 +1573,7 @@ def gen_case(r, cfg, nops=25, kind=None):
             else:
                 op = [r.choice(["repr", "len", "bool", "iter"]), i]
             op = tame(r, op)
-            if op[0] == "callm" and r.random() < 0.2 and callable(getattr(type(side.slots[op[1]]), op[2], None)):
+            if op[0] == "callm" and r.random() < 0.2 and plain_method(type(side.slots[op[1]]), op[2]):
                 op = ["tcallm"] + op[1:]
             ops.append(op)
             nd = needs(op, side.slots[op[1]])
@@ -1672,6 +1875,32 @@ CORPUS = [
 ]
 
 
+def family_corpus():
+    """instances of four different classes that are all called harness.C02.Shape (and the classes themselves), lent over one
+    connection in both orders, under every configuration; each is then used through the special methods only it has"""
+    members = [("bag", [1, 2, 3]), ("row", [4, 5]), ("gate", []), ("tally", [7]), ("bare", [8])]
+    use = {"bag": lambda i: [["len", i], ["contains", i, I_(2)], ["func", i, "list"], ["getitem", i, I_(0)], ["buffiter", i, 2, 2, 4]],
+           "row": lambda i: [["getitem", i, I_(1)], ["len", i], ["func", i, "list"], ["contains", i, I_(5)], ["getitem", i, I_(7)]],
+           "gate": lambda i: [["with", i, None], ["with", i, "KeyError"], ["len", i], ["getattr", i, "log"]],
+           "tally": lambda i: [["bool", i], ["call", i, [I_(1)], [["k", I_(2)]]], ["func", i, "list"], ["bool", i], ["len", i]],
+           "bare": lambda i: [["bool", i], ["len", i], ["iter", i], ["callm", i, "describe", [I_("<")], [["suffix", I_(">")]]], ["call", i, [], []]]}
+    out = []
+    for cfg in ("classic", "public", "default"):
+        for order in (members, members[::-1], members[2:] + members[:2]):
+            roots = [["shape", v, [I_(x) for x in items], False] for v, items in order]
+            ops = []
+            for i, (v, _) in enumerate(order):
+                ops += use[v](i)
+            out.append({"cfg": cfg, "target": ["multi", roots], "ops": ops})
+        # the classes lent as classes, then instances made through them, then a second class of one of the variants
+        roots = [["shapeclass", "bag", False], ["shapeclass", "row", False], ["shape", "gate", [], False], ["shapeclass", "bag", True]]
+        ops = [["call", 0, [I_((1, 2))], []], ["call", 1, [I_((3, 4, 5))], []], ["len", 4], ["len", 5], ["getitem", 5, I_(0)], ["contains", 4, I_(1)], ["with", 2, None],
+               ["callm", 3, "make", [I_(9)], []], ["len", 6], ["getattr", 0, "made"], ["getattr", 3, "made"], ["getattr", 0, "kind"], ["getattr", 1, "__name__"],
+               ["cmp", 0, "eq", {"slot": 3}], ["cmp", 0, "eq", {"slot": 0}], ["repr", 1], ["len", 0], ["bool", 1]]
+        out.append({"cfg": cfg, "target": ["multi", roots], "ops": ops})
+    return out
+
+
 def check_cases(ctx, model, facts, cases):
     records = []
     for case in cases:
@@ -1688,6 +1917,8 @@ def check_cases(ctx, model, facts, cases):
                  sample={"cfg": case["cfg"], "target": case["target"][0], "ops": [o[0] for o in case["ops"]][:12], "differences": sigs})
         ctx.count("cfg:" + case["cfg"])
         ctx.count("target:" + case["target"][0])
+        if case["target"][0] == "multi":
+            ctx.count("same-named-classes:%d-lent" % sum(1 for x in case["target"][1] if x[0] in ("shape", "shapeclass")))
         records.extend(col)
     if model is not None:
         correspond(ctx, model, facts, records)
@@ -1701,12 +1932,14 @@ def run(ctx):
     ctx.coverage_extra["tree_facts"] = facts
     ctx.coverage_extra["triaged_shapes"] = FAMILIES
     ctx.coverage_extra["rule"] = ("a case is a target specification (list, dict, set, bytearray, deque, list/dict iterator, generator (possibly raising), "
-                                  "temp file in 7 modes, user classes with operators/properties/context manager/getitem-only/plain attributes, nested) plus up to 25 "
+                                  "temp file in 7 modes, user classes with operators/properties/context manager/getitem-only/plain attributes, nested; or a family: two to "
+                                  "five objects lent one after the other over one connection -- instances of distinct classes that share the module-qualified name "
+                                  "harness.C02.Shape but differ in their special methods, and such classes themselves, in every order) plus up to 25 "
                                   "operations generated online against a scratch twin (mostly meaningful indexes, keys, methods; plus out-of-range, wrong-type, missing-name, "
                                   "arity errors), run under classic/public/default; result and deep state of every reached object compared after every step; "
                                   "non-trivial = at least 3 steps of which 2 permitted; distinct by the whole case; plus buffiter parameter cases")
     n_seq, n_buff = (1500, 300) if ctx.quick else (20000, 3000)
-    cases = list(CORPUS)
+    cases = list(CORPUS) + family_corpus()
     for i in range(n_seq):
         cfg = r.choice(["classic", "classic", "public", "default"])
         cases.append(gen_case(r, cfg))
